@@ -68,8 +68,11 @@ def _render(blocks, between=0):
 
 
 # ---- family "blocks": every sequence of 0..5 Decay blocks over 3 mothers ---------------------------------------
+import os as _os
+
+THOROUGH = _os.environ.get("VERIF_TIER") == "thorough"
 _SEQS = [()]
-for _n in range(1, 6):
+for _n in range(1, 7 if THOROUGH else 6):
     _SEQS += [tuple((k // 3 ** j) % 3 for j in range(_n)) for k in range(3 ** _n)]
 N_BLOCKS = len(_SEQS) * 3
 
